@@ -29,9 +29,28 @@ def tasks(tier):
     for a, letter in it.product(asm, ["A", "C", "Z"] if tier == "quick" else ["A", "B", "C", "D", "E", "Z"]):
         for nf in (1, 2):
             t.append(("t_config_params", {"assemblage": a, "n_fractions": nf, "fabric": letter}))
+    # fabric strings taken from the enumeration itself -- every member's suffix, full name and lower-case form, the other
+    # phase's fabrics ("AB"), the empty string -- : only "A".."E" name an olivine fabric, whatever look-up the parser uses
+    for letter in _fabric_strings():
+        t.append(("t_config_params", {"assemblage": ["olivine"], "n_fractions": 1, "fabric": letter}))
     t += [("t_config_output", {"assemblage": a}) for a in (["olivine"], ["olivine", "enstatite"])]
     t += [("t_config_input", {}), ("t_config_modes", {}), ("t_config_special_values", {})]
     return t
+
+
+def _fabric_strings():
+    from pydrex import core
+
+    out = []
+    for name in core.MineralFabric.__members__:
+        pre, _, suf = name.partition("_")
+        out += [suf, name, suf.lower(), pre, pre + "_", "_" + suf, suf + suf]
+    out += ["", " A", "A ", "olivine_", "Olivine_A"]
+    seen = []
+    for x in out:
+        if x not in seen and x not in ("A", "C"):
+            seen.append(x)
+    return seen
 
 
 def _io():
@@ -253,6 +272,21 @@ def t_config_params(sess, assemblage, n_fractions, fabric):
             reached = sess.satisfiable(f"{pt}: reach", p.pc).verdict == "sat"
         ok = isinstance(out["phase_assemblage"], tuple) and all(isinstance(x, P) for x in out["phase_assemblage"]) and isinstance(out["initial_olivine_fabric"], F)
         sess.prove(f"{pt}: phases and fabric are enumeration-typed, phases in a tuple", p.pc, z3.BoolVal(bool(ok)))
+        # when the key is given, the parsed fabric is the OLIVINE fabric of that letter -- and a string that names none
+        # (another phase's fabric, a full member name, ...) cannot come back as a value at all
+        present = z3.And(has_tab, flagv["initial_olivine_fabric"])
+        want_fab = F.__members__.get("olivine_" + fabric) if isinstance(fabric, str) else None
+        qf = sess.prove(f"{pt}: a supplied fabric {fabric!r} is returned as MineralFabric.olivine_{fabric} (and refused when there is no such member)", list(p.pc) + [present],
+                        z3.BoolVal(want_fab is not None and out["initial_olivine_fabric"] is want_fab))
+        if not qf.holds and isinstance(fabric, str):
+            ce = {"name": qf.name, "case": {"fabric": fabric}, "cls": {"kind": "fabric string mis-parsed", "fabric": fabric}}
+            first = getattr(sess, "_fabric_cex", None)
+            if first is None:
+                sess._fabric_cex = qf.name
+                ce["replay"] = "vf.props.C19:replay_fabric"
+            else:
+                ce["same_as"] = first
+            sess.cex.append(ce)
         fr_out = out["phase_fractions"]
         sess.prove(f"{pt}: equal-length phase and fraction lists", p.pc, z3.BoolVal(len(out["phase_assemblage"]) == len(fr_out)))
         tot = sum((R(x) for x in fr_out), R(0))
@@ -343,6 +377,41 @@ def replay_config(case):
         return {"reproduced": True, "detail": f"{type(e).__name__}: {e}", "config": lines}
     finally:
         os.chdir(cwd)
+
+
+def replay_fabric(case):
+    """Public API: a TOML file whose initial_olivine_fabric is the given string: "A".."E" parse to that olivine fabric,
+    every other string is a ConfigError."""
+    import os
+    import tempfile
+
+    import pydrex.io as pio
+    from pydrex import core, exceptions
+
+    d = tempfile.mkdtemp(prefix="c19f_")
+    with open(os.path.join(d, "start.scsv"), "w") as f:
+        f.write("---\nschema:\n  delimiter: ','\n  missing: '-'\n  fields:\n    - name: X\n      type: float\n      fill: NaN\n    - name: Y\n      type: float\n      fill: NaN\n---\nX,Y\n1.0,2.0\n")
+    problems = []
+    cwd = os.getcwd()
+    os.chdir(d)
+    try:
+        for fab in [case["fabric"]] + ["A", "B", "C", "D", "E", "AB", "F", "olivine_A", "enstatite_AB", "a", ""]:
+            with open("conf.toml", "w") as f:
+                f.write('[input]\nvelocity_gradient = ["simple_shear_2d", "Y", "X", 5e-6]\nlocations_initial = "start.scsv"\ntimestep = 1e9\n[parameters]\n'
+                        + f'initial_olivine_fabric = "{fab}"\n')
+            want = core.MineralFabric.__members__.get("olivine_" + fab)
+            try:
+                got = pio.parse_config("conf.toml")["parameters"]["initial_olivine_fabric"]
+                if want is None or got is not want:
+                    problems.append(f'initial_olivine_fabric = "{fab}" parsed as {got!r}')
+            except exceptions.ConfigError:
+                if want is not None:
+                    problems.append(f'initial_olivine_fabric = "{fab}" refused')
+            except Exception as e:  # noqa: BLE001
+                problems.append(f'initial_olivine_fabric = "{fab}": {type(e).__name__} instead of ConfigError')
+    finally:
+        os.chdir(cwd)
+    return {"reproduced": bool(problems), "detail": sorted(set(problems))[:6] or "fabric strings parsed as documented"}
 
 
 def t_config_output(sess, assemblage):
